@@ -107,6 +107,9 @@ impl<K, V> EntryNode<K, V> {
     }
 }
 
+#[cfg(feature = "verif-hooks")]
+pub(crate) mod verif;
+
 fn check_size(size: usize) -> Result<(), CacheError> {
     if size == 0 {
         Err(CacheError::InvalidSize(0))
